@@ -230,6 +230,11 @@ class P:
                 rhs = self.expr(nostruct, p + 1)
                 lhs = ("bin", v, lhs, rhs)
                 continue
+            if k == "op" and v == ".." and minp == 0:
+                self.next()
+                rhs = self.expr(nostruct, 1)
+                lhs = ("range", lhs, rhs)
+                continue
             if k == "op" and v == "=" and minp == 0:
                 self.next()
                 rhs = self.expr(nostruct)
